@@ -506,6 +506,9 @@ class Exec(ExprMixin, CallMixin):
             self.assign_target(st.target, VTuple([VInt(enum_start + z3.Length(whole) - z3.Length(rest)), hv]), fr)
         else:
             self.assign_target(st.target, hv, fr)
+        # invariants of loops NESTED in this body may name `rest<k>`: the part of this loop's sequence after the
+        # current element (needed to state an inner invariant relative to the outer fold)
+        fr.env[f"rest{k}"] = VList(elem, seq=t)
         try:
             self.exec_block(st.body, fr)
         except ContinueSig:
